@@ -632,7 +632,7 @@ pub fn run(run: &mut Run) -> Result<(), String> {
                 plan.clock = Some(b(2, 0));
                 plan.dfrc = Some((0..960, 8, b(0, 0)));
                 plan.lines = Some(b(2, 1));
-                plan.raws.push((Box::new(ThreeMen { bk: None }), b(0, 0)));
+                plan.raws.push((Box::new(ThreeMen { bk: if prop == "C01" { None } else { Some(sub8.clone()) } }), b(0, 0)));
                 plan.raws.push((Box::new(Castle { extra: 1, ek_rank2: false }), b(0, 0)));
                 plan.raws.push((Box::new(EpUniverse::reduced()), b(0, 0)));
                 plan.raws.push((Box::new(Checks { n: 2 }), b(0, 0)));
@@ -704,8 +704,8 @@ pub fn run(run: &mut Run) -> Result<(), String> {
             if q {
                 plan.start = Some(b(2, 1));
                 plan.mid = Some(b(1, 1));
-                plan.raws.push((Box::new(ThreeMen { bk: Some(sub8.clone()) }), b(0, 0)));
-                plan.raws.push((Box::new(Castle { extra: if prop == "C16" { 0 } else { 1 }, ek_rank2: false }), b(0, 0)));
+                plan.raws.push((Box::new(ThreeMen { bk: Some(vec![63, 36, 9, 0]) }), b(0, 0)));
+                plan.raws.push((Box::new(Castle { extra: 0, ek_rank2: false }), b(0, 0)));
                 plan.raws.push((Box::new(Checks { n: 2 }), b(0, 0)));
                 plan.raws.push((Box::new(EpUniverse::small()), b(0, 0)));
                 plan.raws.push((Box::new(DoubleCheck { kings: vec![4], own_kinds: vec![Kind::P] }), b(0, 0)));
